@@ -285,6 +285,10 @@ func (p *PX) term(v ssa.Value, fr *pxFrame, st *pxState) *Term {
 			if t := p.w.ctabTermOf(v, func(iv ssa.Value) *Term { return p.term(iv, fr, st) }); t != nil {
 				return t
 			}
+			// a cell of a local array used as a table (pxlocaltab.go)
+			if t := p.localTabLoad(x.X, fr, st); t != nil {
+				return t
+			}
 			// a load from a read-only package table: what the initialiser stored there (roinit.go)
 			if g, ok := x.X.(*ssa.Global); ok {
 				if t := p.roGlobalSlice(g, v.Type()); t != nil {
@@ -371,6 +375,11 @@ func (p *PX) term(v ssa.Value, fr *pxFrame, st *pxState) *Term {
 							any = true
 						} else {
 							ft = &Term{K: TLeaf, T: stt.Field(i).Type(), key: "zero:" + types.TypeString(stt.Field(i).Type(), nil)}
+							// (a boolean / integer field the literal leaves out is false / 0:
+							// `listHeader{tag: t, hasLen: true}` has hasType == false)
+							if z := zeroOf(stt.Field(i).Type()); z != nil && (z.K == TBoolConst || z.K == TConst) {
+								ft = z
+							}
 						}
 						args = append(args, ft)
 						keys = append(keys, ft.key)
@@ -860,6 +869,7 @@ func (p *PX) instrs(fr *pxFrame, b *ssa.BasicBlock, from int, st *pxState, k pxC
 			}
 			p.byteStore(x, fr, st)
 			p.localArrayStore(x, fr, st) // &localArray[i].field (pxlocalarray.go)
+			p.localTabStore(x, fr, st)   // a cell of a local array used as a table (pxlocaltab.go)
 		case *ssa.MapUpdate:
 			// remembered for rules about tables kept in struct fields (numbering)
 			if ld, ok := x.Map.(*ssa.UnOp); ok {
